@@ -333,7 +333,13 @@ int assemble_code(
   }
 
   // The next block starts behind this one; org is in the CPU's address units.
-  org = (asm_context.memory.high_address + 1) / asm_context.bytes_per_address;
+  // A block that placed nothing (only labels, .resb ...) leaves the bounds of
+  // an empty image: low above high. The next block then starts where this
+  // one did.
+  if (asm_context.memory.low_address <= asm_context.memory.high_address)
+  {
+    org = (asm_context.memory.high_address + 1) / asm_context.bytes_per_address;
+  }
 
   tokens_close(&asm_context);
 
